@@ -320,6 +320,31 @@ func (o *out) emit(v any) {
 //	SIM_MODE=replay  SIM_REPLAY=<file>               run the (minimised) tape once
 //	SIM_MODE=minimise SIM_REPLAY=<file>              delta-debug the tape in-process
 //	SIM_OUT=<file> (JSON lines)  SIM_PROPERTY  SIM_TIER
+//
+// memoryWatchdog ends the worker when its heap runs away (the sandbox has no memory limit: code
+// under test that loops while allocating would otherwise take the whole machine down). The report
+// has the shape of a crash, so that the orchestrator attributes it to the open run.
+func memoryWatchdog() {
+	var m runtime.MemStats
+	for {
+		time.Sleep(150 * time.Millisecond)
+		runtime.ReadMemStats(&m)
+		if m.HeapAlloc > 3<<30 {
+			buf := make([]byte, 1<<20)
+			buf = buf[:runtime.Stack(buf, true)]
+			// the goroutine that is running (allocating) first
+			stack := string(buf)
+			if i := strings.Index(stack, "[running"); i >= 0 {
+				if j := strings.LastIndex(stack[:i], "goroutine "); j >= 0 {
+					stack = stack[j:]
+				}
+			}
+			fmt.Fprintf(os.Stderr, "\npanic: memory runaway: heap grew to %d MB within one run\n\n%s\n", m.HeapAlloc>>20, stack)
+			os.Exit(2)
+		}
+	}
+}
+
 func Main(t *testing.T, scenario string, body func(rc *RunCtx)) {
 	mode := os.Getenv("SIM_MODE")
 	if mode == "" {
@@ -327,6 +352,7 @@ func Main(t *testing.T, scenario string, body func(rc *RunCtx)) {
 	}
 	property := os.Getenv("SIM_PROPERTY")
 	tier := os.Getenv("SIM_TIER")
+	go memoryWatchdog()
 	o := &out{f: os.Stdout}
 	if p := os.Getenv("SIM_OUT"); p != "" {
 		f, err := os.OpenFile(p, os.O_CREATE|os.O_WRONLY|os.O_APPEND, 0o644)
